@@ -6,7 +6,7 @@ LEVEL = "proof"
 TEXT = ("Whole-segment matching and independence of Go's map iteration order (resolve_order_independent, resolve_hit, resolve_miss), "
         "one import per resolved path (alias_memo, alias_fresh) and the quoting/dot rules are Lean theorems over the import-table model; "
         "the model is run against imports.go on alias tables with aliases that are string prefixes of each other, of referenced paths and of "
-        "standard packages, and the implementation's answers are additionally judged by an independent resolver written from the documentation.")
+        "standard packages, and the implementation's answers are additionally judged by an independent resolver written from the documentation. local_names_distinct / import_block_distinct / same_name_iff_same_package: in every reachable import table paths and local names are one-to-one (the hex sequence number is injective and never contains the separator). Level B: every documented spelling (alias, alias/sub-path, full path, quoted or not, ".") in every position (constructor, value, &value, struct, type, !value, decorator, function, referenced-but-unused type) over six fixture packages with identical self-identifying symbols; the import block is parsed and must list exactly the used packages.")
 TECHNIQUE = "Lean 4 theorems (permutation invariance of a first-match lookup, memoisation) + model-vs-implementation correspondence on alias/op sequences"
 LEAN_PROPS = ["C14"]
 TRUSTED = ["goimports pruning of unused imports is observed (C01), not modelled"]
@@ -153,6 +153,14 @@ def level_b(ctx):
         ops = [["counters"]] + [["param", p] for p in sorted(cfg.get("parameters", {}))] + [["get", s_] for s_ in cfg["services"]] + [["counters"]]
         items.append((cfg, ops))
         metas.append((used, expect))
+    # the alias table is the MERGED one: a later file re-pointing an alias wins for every reference, in whichever file
+    m0 = {"pkg": "gen"}
+    mf = {"meta": dict(m0, imports={"st": "probe/fx2/pkg", "k": "probe/deep"}),
+          "services": {"a": {"constructor": "st.NewA", "arguments": [1]}, "b": {"value": "&st.GlobalVal"}, "c": {"constructor": "k/fx.NewB", "type": "*k/fx.Obj", "getter": "GetC"}},
+          "__files__": [{"meta": dict(m0, imports={"st": "probe/fx", "k": "probe"}), "services": {"a": {"constructor": "st.NewA", "arguments": [1]}}},
+                        {"meta": {"imports": {"st": "probe/fx2/pkg", "k": "probe/deep"}}, "services": {"b": {"value": "&st.GlobalVal"}, "c": {"constructor": "k/fx.NewB", "type": "*k/fx.Obj", "getter": "GetC"}}}]}
+    items.append((mf, [["counters"]] + [["get", s_] for s_ in mf["services"]] + [["counters"]]))
+    metas.append(({"probe/fx2/pkg", "probe/deep/fx"}, {}))
     out, err = behave.run_batch(ctx, items, tag="c14", local=True)
     violations, corr_fail = [], []
     dist = {"containers": 0, "references_checked": 0, "local_package_refs": 0, "import_blocks_checked": 0}
